@@ -209,6 +209,110 @@ func init() {
 		Explanation: "Decides the structural clause 'asOf and until are never confused and the range check precedes planning': role colouring of every store/argument/return that carries a time bound by name across six packages; positional wiring of asOfUntilFor/resolutionFor; TIMERANGE from/to → AsOf/Until; the asOf-before-table-asOf error precedes planning; the default window derives from the clock and the retention period.",
 		NotDecided:  []string{"the three rounding rules (RoundTimeUp / UntilUp / UntilDown) at period boundaries", "Truncate/SubMerge alignment cases (values)"},
 		Assumptions: []string{"carrier roles follow the identifiers asOf/until, AsOf/Until, GetAsOf/GetUntil used consistently in this code base"},
-		Rules:       []func(*Ctx){func(c *Ctx) { ruleC07a(c, "C07.a") }, func(c *Ctx) { ruleC07b(c, "C07.b") }, func(c *Ctx) { ruleC07c(c, "C07.c") }, func(c *Ctx) { rulePurity(c, "C07.d") }},
+		Rules:       []func(*Ctx){func(c *Ctx) { ruleC07a(c, "C07.a") }, func(c *Ctx) { ruleC07b(c, "C07.b") }, func(c *Ctx) { ruleC07c(c, "C07.c") }, func(c *Ctx) { rulePurity(c, "C07.d") }, func(c *Ctx) { ruleC07e(c, "C07.e") }},
 	})
+}
+
+// ruleC07e: a window shorter than one stored period (empty or inverted after
+// rounding) is rejected, not answered.
+func ruleC07e(c *Ctx, rule string) {
+	c.describe(rule, "pathstate: in resolutionFor, on every path where the resolution was truncated to the window (resolution > window), the value tested by the 'finer than the table's resolution' error check is that window itself — the only place an empty or inverted window (window < one stored period) is rejected; clamping it up first lets group.GetAsOf widen the window and return a period outside (asOf, until]")
+	rf := c.need(rule, "z/planner.resolutionFor")
+	if rf == nil {
+		return
+	}
+	var window ssa.Value
+	for _, call := range callsTo(rf, "(time.Time).Sub") {
+		window = call.(ssa.Value)
+	}
+	if window == nil {
+		c.undecided(rule, "resolutionFor: window = until.Sub(asOf)", rf.Pos(), "no time.Sub call found")
+		return
+	}
+	isSrcRes := func(v ssa.Value) bool {
+		cl, ok := resolveVal(c.P, v, rf).(*ssa.Call)
+		return ok && cl.Call.IsInvoke() && cl.Call.Method.Name() == "GetResolution"
+	}
+	// the truncation test: resolution > window
+	trunc := findIfs(rf, func(v ssa.Value) bool {
+		b, ok := v.(*ssa.BinOp)
+		return ok && ((b.Op == token.GTR && b.Y == window && !isSrcRes(b.X)) || (b.Op == token.LSS && b.X == window && !isSrcRes(b.Y)))
+	})
+	// the error test: resolution < source.GetResolution() whose true side returns an error
+	errTests := findIfs(rf, func(v ssa.Value) bool {
+		b, ok := v.(*ssa.BinOp)
+		return ok && ((b.Op == token.LSS && isSrcRes(b.Y)) || (b.Op == token.GTR && isSrcRes(b.X)))
+	})
+	// only tests whose outcome is an error return
+	var keep []condIf
+	for _, et := range errTests {
+		b := et.v.(*ssa.BinOp)
+		errSide := et.succFor(b.Op == token.LSS && isSrcRes(b.Y) || b.Op == token.GTR && isSrcRes(b.X))
+		onlyErr := true
+		for bb := range reach([]*ssa.BasicBlock{errSide}, nil, nil) {
+			if len(bb.Instrs) == 0 {
+				continue
+			}
+			if r, isR := bb.Instrs[len(bb.Instrs)-1].(*ssa.Return); isR && isNilConst(r.Results[len(r.Results)-1]) {
+				onlyErr = false
+			}
+		}
+		if onlyErr {
+			keep = append(keep, et)
+		}
+	}
+	errTests = keep
+	if len(trunc) != 1 || len(errTests) == 0 {
+		c.undecided(rule, "resolutionFor: a window below one period is rejected", rf.Pos(), "expected one 'resolution > window' test and at least one 'resolution < source resolution' test (found "+itoa(len(trunc))+"/"+itoa(len(errTests))+")")
+		return
+	}
+	ok := true
+	n := 0
+	why := ""
+	for _, et := range errTests {
+		b := et.v.(*ssa.BinOp)
+		tested := b.X
+		if isSrcRes(b.X) {
+			tested = b.Y
+		}
+		// the test's true side must return a non-nil error
+		pathsToFrom(trunc[0].i.Block(), trunc[0].succFor(true), et.i.Block(), func(p pathAtoms) bool {
+			n++
+			if p.resolve(tested) != window {
+				ok = false
+				why = "on the truncated path the tested value is not the window"
+			}
+			return true
+		})
+	}
+	// and every path from the truncation to a nil-error return passes such a test
+	for _, blk := range rf.Blocks {
+		if len(blk.Instrs) == 0 {
+			continue
+		}
+		r, isR := blk.Instrs[len(blk.Instrs)-1].(*ssa.Return)
+		if !isR || !isNilConst(r.Results[len(r.Results)-1]) {
+			continue
+		}
+		pathsToFrom(trunc[0].i.Block(), trunc[0].succFor(true), blk, func(p pathAtoms) bool {
+			pass := false
+			for _, pb := range p.blocks {
+				for _, et := range errTests {
+					if pb == et.i.Block() {
+						pass = true
+					}
+				}
+			}
+			// a path on which resolution (== window) equals the source resolution skips the test legitimately
+			if !pass && !p.has(func(a atom) bool {
+				bb, isB := a.v.(*ssa.BinOp)
+				return isB && (bb.Op == token.NEQ && !a.pos || bb.Op == token.EQL && a.pos) && (isSrcRes(bb.X) || isSrcRes(bb.Y))
+			}) {
+				ok = false
+				why = "a truncated resolution can reach the successful return without the finer-than-source test"
+			}
+			return true
+		})
+	}
+	c.check(rule, "resolutionFor: a window below one period is rejected", trunc[0].i.Pos(), ok && n > 0, "the truncated resolution (= window) is what the finer-than-source error test sees", "an empty or inverted window is no longer rejected ("+why+"): the plan is accepted and group.GetAsOf widens the window to one period ending at UNTIL — a period outside (asOf, until] is returned")
 }
